@@ -82,10 +82,10 @@ func opCase(name string, params []interface{}, tags ...string) Case {
 	var v eval.Value
 	var err error
 	ok, pan := true, interface{}(nil)
-	func() {
+	guarded(map[string]interface{}{"call": "operator " + name, "operands": fmt.Sprint(params)}, func() {
 		defer func() { pan = recover() }()
 		v, err, ok = eval.VerifBuiltin(name, vp)
-	}()
+	})
 	if !ok {
 		panic("no builtin " + name)
 	}
